@@ -347,7 +347,8 @@ def r5(tree, rep):
     rep.check("C17.R5", "a tracked connection leaves the collection when it disconnects", unreg >= 1, CTR, key="C17.R5:unregister-on-disconnect")
     from ..effects import writer_table
     writer_table(tree, rep, "C17.R5", "Connector", "_pending_connectors",
-                 {("__attrs_post_init__", "assign"), ("break_cycles", "call:clear"), ("_schedule_connection", "call:add")},
+                 {("__attrs_post_init__", "assign"), ("break_cycles", "call:clear"), ("_schedule_connection", "call:add"),
+                  ("_schedule_connection", "setitem")},      # (a dict used as an ordered set)
                  "stop_pending_connectors() cancels the attempts while it iterates over this set, and a cancelled Deferred runs its callbacks at "
                  "once: a callback that removes the attempt from the set makes that loop raise after the first cancel - the other attempts are "
                  "never cancelled, the losing links never closed, the winner never selected")
